@@ -24,10 +24,10 @@ import (
 // Ver is a (major, minor) pair.
 type Ver struct{ Major, Minor uint64 }
 
-func (v Ver) String() string       { return fmt.Sprintf("%d.%d", v.Major, v.Minor) }
-func (v Ver) V() *version.Version  { return &version.Version{Major: v.Major, Minor: v.Minor} }
-func (v Ver) IsPHP5() bool         { return v.Major == 5 }
-func (v Ver) Flexible() bool       { return v.Major == 7 && v.Minor >= 3 }
+func (v Ver) String() string      { return fmt.Sprintf("%d.%d", v.Major, v.Minor) }
+func (v Ver) V() *version.Version { return &version.Version{Major: v.Major, Minor: v.Minor} }
+func (v Ver) IsPHP5() bool        { return v.Major == 5 }
+func (v Ver) Flexible() bool      { return v.Major == 7 && v.Minor >= 3 }
 
 // Supported versions as stated by the property (5.0-5.6, 7.0-7.4).
 var (
